@@ -41,7 +41,9 @@ def run(F, ctx):
         "keeps a float lexeme ({:?}), never Display on f64 (which prints 2.0 as `2`, re-parsed as an integer); (b) the Term<->SerializableTerm, "
         "ArithExpr<->SerializableArithExpr, BodyPredicate<->SerializableBodyPred conversion tables are variant-preserving in both directions "
         "(no variant collapsed into another); (c) every producer of stored/cached rule text goes through the one Display impl. "
-        "Not decided: the full grammar round trip (string escaping, operator precedence, vector literals)."
+        "(d) the arithmetic printer's parenthesisation decision, tabulated for every (parent operator, child operator, side), puts parentheses wherever the "
+        "parser's precedence levels (read off parse_add_sub -> parse_mul_div -> parse_primary: which function builds which operator and which function parses its "
+        "left / right operand) would otherwise regroup the printed text. Not decided: string escaping, vector literals, the rest of the grammar."
     )
     # ---- a
     ctx.rule("R-C09-a", "float constants of rules are printed with a float-lexeme formatter", floor=2)
@@ -220,3 +222,7 @@ def run(F, ctx):
     if not ok:
         ctx.violation("storage_engine::snapshot::KnowledgeGraphSnapshot::build_rule_prefix:R-C09-c:other-printer", "the cached rule prefix is no longer printed with format_rule (Rule's Display)", bp.where())
     ctx.end_rule()
+
+    # ---- d: printer / parser precedence agreement
+    from . import c09prec
+    c09prec.run_clause(F, ctx)
